@@ -54,14 +54,16 @@ CLAIMS = {
         technique='Coq proof (list/permutation reasoning over windows) + differential correspondence',
         ref='DESIGN.md §5 C20'),
     'C19': dict(
-        text='Coq theorems c19_parse (every text of well-formed lines, any number of lines, any inline whitespace, any '
+        text='Coq theorems c19_code_refines_model (the dict comprehension of from_trace_codes_text with the token positions and '
+             'base regenerated from the source by tr_codes.py is the model), c19_parse (every text of well-formed lines, any number of lines, any inline whitespace, any '
              'terminator incl. CRLF, any trailing comment -> exactly the (id value, name) pairs), c19_last_wins/nothing_else/'
              'only_pairs (dict semantics), c19_id_bare/prefixed, c19_absent (an id absent from the supplied table is never '
              'decoded, any history), c19_renumber; closed under the global context. Tied to the code by a correspondence on '
              'generated + malformed texts, custom tables through TracesParser and the public API, and an exhaustive check '
              'of the separator sets against the interpreter.',
         note='trusted: Coq kernel+vm_compute; hand model TraceCodes.v of splitlines/split/int(_,16) (library oracles, separator '
-             'sets validated over all code points each run; int syntax restricted to (0x|0X)?hex+); pairing model of C04',
+             'sets validated over all code points each run; int syntax restricted to (0x|0X)?hex+); translator tr_codes.py '
+             '(fail-closed); pairing model of C04',
         technique='Coq proof (parser round-trip by induction over lines) + differential correspondence',
         ref='DESIGN.md §5 C19'),
     'C02': dict(
@@ -170,7 +172,10 @@ CLAIMS = {
         ref='DESIGN.md §5 C18'),
     'C08': dict(
         text='Coq theorems c08_lookup/string/threadname_roundtrip (reassembly of the kernel\'s chunking returns exactly the '
-             'original text and ids, for texts of ANY length, by induction over the records), c08_once / c08_once_single (through '
+             'original text and ids, for texts of ANY length, by induction over the records), c08_string / threadname / '
+             'lookup_with_unrelated (the same with ANY merge of unrelated same-thread records between the chunks: the decoders read '
+             'the records of their own id only - genuine defect F28 repaired, fix commit 105d2ca; F27 second path by identity, '
+             '0109ea4), c08_once / c08_once_single (through '
              'the pairing machine, after ANY history: no trace until the END record, which delivers the whole run), '
              'c08_sweep_paths_in_order + c08_path_shown (every path-taking syscall row shows lookups in lookup order); closed under '
              'the global context. Correspondence on every boundary length with multi-byte characters; once-ness and syscall paths '
